@@ -33,7 +33,7 @@ Qed.
    triangular matrix and a transposition; the table of stage 0 is the dense twin, the table of stage n is upper
    triangular with the pivots on the diagonal; d changes sign exactly at the exchanges.  A zero pivot gives a
    nontrivial kernel (Proofs/BandedComplete.v), hence \det = 0 = the product. ---- *)
-From mathcomp Require ssreflect.ssrnat algebra.ssralg algebra.matrix algebra.rat.
+From mathcomp Require ssreflect.ssrnat ssreflect.eqtype algebra.ssralg algebra.matrix algebra.rat.
 From OV Require Import Model.Solve Proofs.LUPrim Proofs.LUTab Bridge.Det Proofs.BandedDet2 Proofs.BandedDet2Wide Bridge.BandDet.
 Theorem band_det_is_det : forall (F : ssralg.GRing.Field.type) (abs : ssralg.GRing.Field.sort F -> ssralg.GRing.Field.sort F)
   (ltb leb : ssralg.GRing.Field.sort F -> ssralg.GRing.Field.sort F -> bool),
@@ -80,6 +80,40 @@ Check band_det_spec : forall (F : ssralg.GRing.Field.type) (abs : ssralg.GRing.F
 Print Assumptions band_det_spec.
 Example band_det_spec_nonvacuous : PivLaws ratArith.
 Proof. exact rat_PivLaws. Qed.
+
+(* ---- Banded::solve, completely, over every mathcomp field: with D the dense twin as a mathcomp matrix, the answer is the vector
+   D^-1 b ([colv n x] = the column vector \col_(j < n) x_j, [invmx] mathcomp's inverse) when \det D != 0, and the refusal
+   Panic DivZero (division by a zero pivot) when \det D == 0 -- whatever the signs, the exchanges needed and the padding. ---- *)
+Theorem band_solve_spec : forall (F : ssralg.GRing.Field.type) (abs : ssralg.GRing.Field.sort F -> ssralg.GRing.Field.sort F)
+  (ltb leb : ssralg.GRing.Field.sort F -> ssralg.GRing.Field.sort F -> bool),
+  PivotLaws (ArithOf F abs ltb leb) ->
+  forall (B : banded (ArithOf F abs ltb leb)) (b : list (ssralg.GRing.Field.sort F)),
+  wfB B -> bm1 B <= bn B -> length b = bn B ->
+  if @eqtype.eq_op (ssralg.GRing.Field.eqType F)
+       (@matrix.determinant (ssralg.GRing.Field.ringType F) (bn B) (@mx_of F (bn B) (@dense_entry (ArithOf F abs ltb leb) B)))
+       (ssralg.GRing.zero (ssralg.GRing.Field.zmodType F))
+  then band_solve B b = Panic DivZero
+  else exists x : list (ssralg.GRing.Field.sort F), band_solve B b = Ok x /\ length x = bn B /\
+       @colv F (bn B) x =
+       @matrix.mulmx (ssralg.GRing.Field.ringType F) (bn B) (bn B) 1
+         (@matrix.invmx (ssralg.GRing.Field.comUnitRingType F) (bn B) (@mx_of F (bn B) (@dense_entry (ArithOf F abs ltb leb) B)))
+         (@colv F (bn B) b).
+Proof. intros F abs ltb leb PL B b. exact (band_solve_spec_lemma PL (B := B) (b := b)). Qed.
+Check band_solve_spec : forall (F : ssralg.GRing.Field.type) (abs : ssralg.GRing.Field.sort F -> ssralg.GRing.Field.sort F)
+  (ltb leb : ssralg.GRing.Field.sort F -> ssralg.GRing.Field.sort F -> bool),
+  PivotLaws (ArithOf F abs ltb leb) ->
+  forall (B : banded (ArithOf F abs ltb leb)) (b : list (ssralg.GRing.Field.sort F)),
+  wfB B -> bm1 B <= bn B -> length b = bn B ->
+  if @eqtype.eq_op (ssralg.GRing.Field.eqType F)
+       (@matrix.determinant (ssralg.GRing.Field.ringType F) (bn B) (@mx_of F (bn B) (@dense_entry (ArithOf F abs ltb leb) B)))
+       (ssralg.GRing.zero (ssralg.GRing.Field.zmodType F))
+  then band_solve B b = Panic DivZero
+  else exists x : list (ssralg.GRing.Field.sort F), band_solve B b = Ok x /\ length x = bn B /\
+       @colv F (bn B) x =
+       @matrix.mulmx (ssralg.GRing.Field.ringType F) (bn B) (bn B) 1
+         (@matrix.invmx (ssralg.GRing.Field.comUnitRingType F) (bn B) (@mx_of F (bn B) (@dense_entry (ArithOf F abs ltb leb) B)))
+         (@colv F (bn B) b).
+Print Assumptions band_solve_spec.
 
 (* ---- the same two theorems AT THE EXACT TIER ITSELF: AQ (Coq's canonical rationals Qc) is the instance of the model that the
    correspondence check runs against the implementation's Rat.  Bridge/BandDetQc.v gives Qc its mathcomp fieldType
